@@ -496,7 +496,7 @@ class NodeDeref:
                     self.pos,
                 )
             s = value.value
-            i = int(idx.value)
+            i = idx.asInt().value
             if i < 0:
                 i = i + len(s)
             if i < 0 or i >= len(s):
@@ -513,7 +513,7 @@ class NodeDeref:
                     self.pos,
                 )
             lst = value.value
-            i = int(idx.value)
+            i = idx.asInt().value
             if i < 0:
                 i = i + len(lst)
             if i < 0 or i >= len(lst):
@@ -579,19 +579,19 @@ class NodeDerefAssign:
 
         if container.isString():
             s = container.value
-            i = int(idx.value)
+            i = idx.asInt().value
             if i < 0:
                 i = i + len(s)
             if i < 0 or i >= len(s):
                 raise CklRuntimeError(
                     ValueString("ERROR"), f"Index out of bounds {i}", self.pos
                 )
-            container.value = s[0:i] + value.value + s[i+1:]
+            container.value = s[0:i] + value.asString().value + s[i+1:]
             return container
 
         if container.isList():
             lst = container.value
-            i = int(idx.value)
+            i = idx.asInt().value
             if i < 0:
                 i = i + len(lst)
             if i < 0 or i >= len(lst):
@@ -708,8 +708,8 @@ class NodeDerefSlice:
 
         if value.isString():
             s = value.value
-            start = int(start.value)
-            end = int(end.value) if end else len(s)
+            start = start.asInt().value
+            end = end.asInt().value if end else len(s)
             if start < 0:
                 start += len(s)
             if end < 0:
@@ -724,8 +724,8 @@ class NodeDerefSlice:
 
         if value.isList():
             lst = value.value
-            start = int(start.value)
-            end = int(end.value) if end else len(lst)
+            start = start.asInt().value
+            end = end.asInt().value if end else len(lst)
             if start < 0:
                 start += len(lst)
             if end < 0:
